@@ -1020,3 +1020,8 @@ PROOF_MODULES = PROOF_MODULES + ['Compute.Props.RoundingLU', 'Compute.Lemmas.Fac
 REQUIRED_THEOREMS = REQUIRED_THEOREMS + ['Cv.RoundingLU.solve_backward_error', 'Cv.RoundingLU.choleskyRoute_backward_error', 'Cv.RoundingLU.luRoute_backward_error', 'Cv.RoundingLU.luRoute_residual', 'Cv.RoundingLU.choleskyRoute_residual', 'Cv.RoundingLU.luRoute_backward_error_norm', 'Cv.RoundingLU.f64_note']
 NOT_PROVED = [x for x in NOT_PROVED if not any(k in str(x) for k in ('floating-point rounding of the factorisations',))]
 NOT_PROVED = NOT_PROVED + ["the end-to-end floating-point residual bound in terms of ||A|| (the property's form) needs the growth factor of partial pivoting, which is not bounded by a theorem; PROVED in the standard model (Props/RoundingLU): whatever `solve` returns satisfies (A+dA)x = b with |dA| <= gamma_(3n)|L||U| (LU route, also norm-wise gamma_(3n) n ||U||) resp. gamma_(3n+1)|L||L^T| (Cholesky route), with residual corollaries; trusted link: IEEE binary64 arithmetic and sqrt obey fl(x) = x(1+d), |d| <= 2^-53, absent overflow/underflow"]
+
+# --- source tie, in-place mutation / nested loops / decision trees (tools/rs2lean.py mut=True: regenerated from /repo/src into
+# Generated/SrcC11Mut.lean and proved equal to the hand model in Props/SrcTieC11Mut.lean)
+from . import srctie
+srctie.wire_mut(globals(), 'C11')
